@@ -59,14 +59,51 @@ class Part:
             f = self.val
             return Part('const', lambda i: s * f(i), ln=self.ln)
         if self.kind == 'lin':
-            return Part('lin', s * self.val, empty=self.empty)
+            return Part('lin', s * self.val, empty=self.empty,
+                        ln=getattr(self, 'ln', Z(1)))
         return Part('term', s * self.val)
 
     def abs_binop(self, ex, st, op, b, n):
         s = real_of(ex, st, b)
         if isinstance(op, ast.Mult) and s is not None:
             return self.scaled(s)
+        if isinstance(op, (ast.Add, ast.Sub)) and isinstance(b, Part) and \
+                b.kind == self.kind:
+            sg = 1 if isinstance(op, ast.Add) else -1
+            if self.kind == 'const':
+                # matrix + matrix: equal lengths, or one of them 1 x 1
+                l1, l2 = self.ln, b.ln
+                f1, f2 = self.val, b.val
+                d = ex.decide(st, l1 == l2)
+                if d is None:
+                    raise NeedFork(l1 == l2)
+                if d:
+                    return Part('const', lambda i: f1(i) + sg * f2(i), ln=l1)
+                d2 = ex.decide(st, l2 == 1)
+                if d2 is None:
+                    raise NeedFork(l2 == 1)
+                if d2:
+                    return Part('const', lambda i: f1(i) + sg * f2(Z(0)),
+                                ln=l1)
+                d1 = ex.decide(st, l1 == 1)
+                if d1 is None:
+                    raise NeedFork(l1 == 1)
+                if d1:
+                    return Part('const', lambda i: f1(Z(0)) + sg * f2(i),
+                                ln=l2)
+                raise PyRaise('TypeError', 'incompatible dimensions')
+            if self.kind == 'lin':
+                return Part('lin', self.val + sg * b.val,
+                            empty=z3.And(self.empty, b.empty),
+                            ln=z3.If(self.ln == 1, b.ln, self.ln))
         raise Unsupported('operation on a part of a function')
+
+    def abs_unop(self, ex, st, op, n):
+        if isinstance(op, ast.UAdd):
+            return self.scaled(z3.RealVal(1))
+        if isinstance(op, ast.USub):
+            return self.scaled(z3.RealVal(-1))
+        raise Unsupported('unary operation on a part')
 
     def abs_getitem(self, ex, st, idx, n):
         c, k = const_of(idx)
@@ -97,6 +134,12 @@ class Seq:
 
     def abs_truth(self, ex, st):
         return self.n > 0
+
+    def abs_binop(self, ex, st, op, b, n):
+        if isinstance(op, ast.Add) and isinstance(b, Seq):
+            n1, f1, f2 = self.n, self.val, b.val
+            return Seq(n1 + b.n, lambda k: z3.If(k < n1, f1(k), f2(k - n1)))
+        raise Unsupported('operation on a list of terms')
 
     def abs_loop(self, ex, st, s, fid):
         # for f in terms: f *= s   -- the loop variable is rebound to the
@@ -165,6 +208,26 @@ class Mat11:
         raise Unsupported('item of a 1x1 matrix')
 
 
+class FOther:
+    """the right operand: another _function (read only)"""
+    abs_object = True
+
+    def __init__(self, L_, parts):
+        self.L, self.parts = L_, parts
+
+    def abs_getattr(self, ex, st, attr, n):
+        if attr in self.parts:
+            return self.parts[attr]
+        return core.NOTFOUND
+
+    def abs_method(self, ex, st, name, args, kwargs, n):
+        if name == '_isconvex':
+            return B(self.parts['_ccvterms'].n == 0)
+        if name == '_isconcave':
+            return B(self.parts['_cvxterms'].n == 0)
+        raise Unsupported('method %s of the operand' % name)
+
+
 class FSelf:
     abs_object = True
 
@@ -178,9 +241,13 @@ class FSelf:
         return core.NOTFOUND
 
     def abs_method(self, ex, st, name, args, kwargs, n):
+        at = st.ghost['attrs']
         if name == '_isaffine':
-            at = st.ghost['attrs']
             return B(z3.And(at['_cvxterms'].n == 0, at['_ccvterms'].n == 0))
+        if name == '_isconvex':
+            return B(at['_ccvterms'].n == 0)
+        if name == '_isconcave':
+            return B(at['_cvxterms'].n == 0)
         raise Unsupported('method %s of the function' % name)
 
     def abs_eq(self, ex, st, o):
@@ -207,8 +274,10 @@ def b_len(ex, st, args, kwargs, n):
     v = args[0]
     if isinstance(v, FSelf):
         return I(v.L)
-    if isinstance(v, Part) and v.kind == 'const':
+    if isinstance(v, Part) and v.kind in ('const', 'lin'):
         return I(v.ln)
+    if isinstance(v, FOther):
+        return I(v.L)
     return _len0(ex, st, args, kwargs, n)
 
 
@@ -219,6 +288,8 @@ _type0 = L.ext.get('builtins.type')
 def b_type(ex, st, args, kwargs, n):
     if len(args) == 1 and isinstance(args[0], Mat11):
         return Ext('cvxopt.base.matrix')
+    if len(args) == 1 and isinstance(args[0], FOther):
+        return Ext('cvxopt.modeling._function')
     return _type0(ex, st, args, kwargs, n)
 
 
@@ -239,13 +310,18 @@ def isd(ex, st, args, kwargs, n):
     return isinstance(args[0], Mat11)
 
 
+@L.register('cvxopt.modeling._ismatrix', pure=True)
+def ismat(ex, st, args, kwargs, n):
+    return isinstance(args[0], Mat11)
+
+
 @L.register('cvxopt.modeling._lin', pure=True)
 def new_lin(ex, st, args, kwargs, n):
     # _lin(): the linear function without variables
     return Part('lin', z3.RealVal(0), empty=z3.BoolVal(True))
 
 
-_OWN = {k_: L.ext[k_] for k_ in ['cvxopt.modeling.matrix', 'cvxopt.modeling._isdmatrix', 'cvxopt.modeling._lin', 'builtins.len', 'builtins.type']}
+_OWN = {k_: L.ext[k_] for k_ in ['cvxopt.modeling.matrix', 'cvxopt.modeling._isdmatrix', 'cvxopt.modeling._lin', 'cvxopt.modeling._ismatrix', 'builtins.len', 'builtins.type']}
 
 
 def install():
@@ -268,11 +344,13 @@ def setup_for(sc):
         emp = z3.Bool('no variables')
         ng, nh = z3.Int('number of convex terms'), z3.Int(
             'number of concave terms')
-        st.pc += [ng >= 0, nh >= 0, z3.Implies(emp, lv == 0)]
+        st.pc += [ng >= 0, nh >= 0, z3.Implies(emp, lv == 0),
+                  z3.Or(z3.Int('len(linear)') == 1,
+                        z3.Int('len(linear)') == Lf)]
         a = z3.Real('a')
         st.ghost['attrs'] = {
             '_constant': Part('const', lambda i: cf(i), ln=lc),
-            '_linear': Part('lin', lv, empty=emp),
+            '_linear': Part('lin', lv, empty=emp, ln=z3.Int('len(linear)')),
             '_cvxterms': Seq(ng, lambda k: gf(k)),
             '_ccvterms': Seq(nh, lambda k: hf(k))}
         st.ghost['init'] = (Lf, lc, cf, gf, hf, lv, ng, nh, a)
@@ -375,3 +453,125 @@ FUNCS = {'_function.__imul__': {
     'setup': lambda sc: _Run(sc),
     'scenarios': {'float': {'other': 'float'}, 'matrix': {'other': 'm11'}},
     'on_outcomes': on_outcomes, 'config': {'unroll': 8}}}
+
+
+# ------------------------------------------------- f += g  and  f -= g
+def addsub_setup(sc):
+    def setup(ex, st, fid, fn):
+        _Run({'other': 'float'})(ex, st, fid, fn)
+        fr = st.frames[fid]
+        L2 = z3.Int('len(g)')
+        lc2, ll2 = z3.Int('len(constant of g)'), z3.Int('len(linear of g)')
+        c2 = z3.Function('c2', z3.IntSort(), z3.RealSort())
+        g2 = z3.Function('g2', z3.IntSort(), z3.RealSort())
+        h2 = z3.Function('h2', z3.IntSort(), z3.RealSort())
+        l2 = z3.Real('l2')
+        e2 = z3.Bool('g has no variables')
+        ng2, nh2 = z3.Int('convex terms of g'), z3.Int('concave terms of g')
+        st.pc += [L2 >= 1, z3.Or(lc2 == 1, lc2 == L2),
+                  z3.Or(ll2 == 1, ll2 == L2), ng2 >= 0, nh2 >= 0,
+                  z3.Implies(e2, l2 == 0)]
+        other = FOther(L2, {
+            '_constant': Part('const', lambda i: c2(i), ln=lc2),
+            '_linear': Part('lin', l2, empty=e2, ln=ll2),
+            '_cvxterms': Seq(ng2, lambda k: g2(k)),
+            '_ccvterms': Seq(nh2, lambda k: h2(k))})
+        fr['other'] = other
+        st.ghost['other'] = (L2, lc2, c2, g2, h2, l2, ng2, nh2)
+        fr['variable'] = Ext('cvxopt.modeling.variable')
+        fr['_function'] = Ext('cvxopt.modeling._function')
+    return setup
+
+
+def addsub_outcomes(sign):
+    opn = '+=' if sign > 0 else '-='
+
+    def on_outcomes(ex, outs):
+        class N:
+            lineno = 0
+            col_offset = 0
+        i, k = z3.Int('i'), z3.Int('k')
+        nret = 0
+        for o in outs:
+            st = o.st
+            Lf, lc, cf, gf, hf, lv, ng, nh, a = st.ghost['init']
+            L2, lc2, c2, g2, h2, l2, ng2, nh2 = st.ghost['other']
+            node = N()
+            okcurv = z3.Or(z3.And(nh == 0, nh2 == 0),
+                           z3.And(ng == 0, ng2 == 0)) if sign > 0 else \
+                z3.Or(z3.And(nh == 0, ng2 == 0), z3.And(ng == 0, nh2 == 0))
+            oklen = z3.Or(L2 == Lf, L2 == 1)
+            if o.kind == 'raise':
+                node.lineno = o.val[2] if len(o.val) > 2 else 0
+                ex.oblige(st, 'iaddsub-refuses', z3.And(
+                    z3.BoolVal(o.val[0] == 'ValueError'),
+                    z3.Not(z3.And(okcurv, oklen))), node,
+                    'f %s g is refused (ValueError) only if the lengths do '
+                    'not match or the result would be neither convex nor '
+                    'concave (%s)' % (opn, o.val[0]), extra={'prop': 'C11'})
+                continue
+            nret += 1
+            at = st.ghost['attrs']
+            c1, l1, g1, h1 = at['_constant'], at['_linear'], \
+                at['_cvxterms'], at['_ccvterms']
+            ok = isinstance(c1, Part) and isinstance(l1, Part) and \
+                isinstance(g1, Seq) and isinstance(h1, Seq)
+            ex.oblige(st, 'iaddsub-accepts', z3.And(okcurv, oklen), node,
+                      'f %s g is accepted only for matching lengths and a '
+                      'result that is convex or concave' % opn,
+                      extra={'prop': 'C11'})
+            ex.oblige(st, 'imul-returns-self', z3.BoolVal(
+                o.val is st.ghost['me']), node, 'f %s g returns f' % opn,
+                extra={'prop': 'C11'})
+            if not ok:
+                ex.oblige(st, 'iaddsub-value', z3.BoolVal(False), node,
+                          'the parts of the function keep their kinds',
+                          extra={'prop': 'C11'})
+                continue
+            n0 = len(st.pc)
+            st.pc += [i >= 0, i < Lf, k >= 0, okcurv, oklen]
+            bc = lambda f_, ln_, j_: f_(z3.If(ln_ == 1, Z(0), j_))
+            want_c = bc(cf, lc, i) + sign * bc(c2, lc2, i)
+            ex.oblige(st, 'iaddsub-value', z3.And(
+                z3.Or(c1.ln == 1, c1.ln == Lf),
+                bc(c1.val, c1.ln, i) == want_c,
+                z3.Implies(c1.ln == 1, z3.And(lc == 1, lc2 == 1))), node,
+                'after f %s g the constant is the sum (difference) of the '
+                'constants, a length-1 constant being broadcast' % opn,
+                extra={'prop': 'C11'})
+            ex.oblige(st, 'iaddsub-value', l1.val == lv + sign * l2, node,
+                      'after f %s g the linear part is the sum (difference) '
+                      'of the linear parts' % opn, extra={'prop': 'C11'})
+            if sign > 0:
+                wg = (ng + ng2, lambda kk: z3.If(kk < ng, gf(kk),
+                                                 g2(kk - ng)))
+                wh = (nh + nh2, lambda kk: z3.If(kk < nh, hf(kk),
+                                                 h2(kk - nh)))
+            else:
+                wg = (ng + nh2, lambda kk: z3.If(kk < ng, gf(kk),
+                                                 -h2(kk - ng)))
+                wh = (nh + ng2, lambda kk: z3.If(kk < nh, hf(kk),
+                                                 -g2(kk - nh)))
+            ex.oblige(st, 'iaddsub-value', z3.And(
+                g1.n == wg[0], h1.n == wh[0],
+                z3.Implies(k < wg[0], g1.val(k) == wg[1](k)),
+                z3.Implies(k < wh[0], h1.val(k) == wh[1](k))), node,
+                'after f %s g the convex terms of f are its own followed by '
+                'the %s terms of g%s, and the concave terms likewise' % (
+                    opn, 'convex' if sign > 0 else 'concave',
+                    '' if sign > 0 else ' negated'), extra={'prop': 'C11'})
+            del st.pc[n0:]
+        if outs:
+            ex.oblige(outs[0].st, 'covered', z3.BoolVal(nret >= 1), N(),
+                      'f %s g returns for compatible operands (%d paths)' % (
+                          opn, nret), extra={'prop': 'C11'})
+        return {'paths': len(outs), 'returns': nret}
+    return on_outcomes
+
+
+FUNCS['_function.__iadd__'] = {
+    'setup': addsub_setup, 'scenarios': {'function': {}},
+    'on_outcomes': addsub_outcomes(+1), 'config': {'unroll': 8}}
+FUNCS['_function.__isub__'] = {
+    'setup': addsub_setup, 'scenarios': {'function': {}},
+    'on_outcomes': addsub_outcomes(-1), 'config': {'unroll': 8}}
